@@ -199,7 +199,7 @@ def gen_op(rng, pool_dumps):
         c = S.CLS[b[0]]
         ok = [k for k, f in (('float', c.FLOATS_OK), ('int', c.INTS_OK), ('bool', c.BOOLS_OK)) if f]
         kind = b[1] if rng.random() < 0.6 and b[1] in ok else rng.choice(ok)
-        may_ro = all(d[20] for _, d in b[22])
+        may_ro = all(d[20] for _, d in b[22]) and not (b[5][0] == 'A' and not b[5][1])      # (0-d mask arrays stay writable)
         v = ['val', True, vshape, kind, rng.random() < 0.8 or not may_ro] if rng.random() < 0.85 or vshape else ['val', False, [], kind, True]
         if rng.random() < 0.1:
             v = rand_val(rng, rng.choice(S.SHAPES), kind)
@@ -285,6 +285,17 @@ def mutates_handed_out_derivative(op, pool):
     return any(t is dv for o in pool for dv in o._derivs_.values())
 
 
+def pickle_shares_arrays(op, pool):
+    """pickle keeps the identity of an ndarray object that occurs twice (parent and derivative holding the very same
+    array): freezing the read-only one then freezes the other.  Array identity is not part of the dumps."""
+    if op[0] != 'pickle':
+        return False
+    o = pool[op[1]]
+    objs = [o] + list(o._derivs_.values())
+    arrs = [a for x in objs for a in (x._values_, x._mask_) if isinstance(a, np.ndarray)]
+    return len({id(a) for a in arrs}) < len(arrs)
+
+
 def uses_boolean_as_float(op, dumps):
     """Boolean overrides as_float (returns a Scalar); the model is of Qube.as_float"""
     isb = lambda i: dumps[i][0] == 'Boolean'
@@ -311,7 +322,8 @@ def gen_prim(rng, nops, table):
             op = gen_op(rng, dumps)
             for _ in range(20):
                 if not uses_boolean_as_float(op, dumps) and not first_mask_bit_matters(op, pool) \
-                        and not stale_cached_wod(op, pool) and not mutates_handed_out_derivative(op, pool):
+                        and not stale_cached_wod(op, pool) and not mutates_handed_out_derivative(op, pool) \
+                        and not pickle_shares_arrays(op, pool):
                     break
                 op = gen_op(rng, dumps)
             if op[0] == 'pickle':
